@@ -22,8 +22,11 @@ EXTENDS Integers, Sequences, FiniteSets, TLC
 
 CONSTANTS Writers,   \* set of writer thread ids
           Readers,   \* set of reader thread ids (disjoint)
-          Plans,     \* set of functions Writers -> Seq({"commit","rollback","empty"}): how each
-                     \* transaction of each writer ends (the environment's script)
+          Plans,     \* set of functions Writers -> Seq(STRING): how each transaction of each writer
+                     \* ends (the environment's script): "commit" publishes; EVERY other way of leaving
+                     \* the transaction - rollback(), a commit without changes ("empty"), a with-block left
+                     \* by an Exception ("raise") or by a BaseException that is not an Exception ("exit",
+                     \* "interrupt", "genexit") - must end the write (rollback path: xClear, wake-up)
           RPlans,    \* set of functions Readers -> Nat: number of read transactions per reader
           RModes,    \* set of functions Readers -> {"latest", "byid", "byinit"}: a "byid" reader opens
                      \* its later transactions with reader(id = the id its first transaction saw), a
